@@ -539,6 +539,13 @@ func (fr *frame) loopEnv(b *ssa.BasicBlock, st *State, phiVals map[*ssa.Phi]*Val
 			}
 		}
 		if v, ok := fr.resolveLocal(name, b); ok {
+			if v.Loc != nil && v.Loc.Kind == LGlobal {
+				// a private local cell: its current content
+				return valTV(fr.loadLoc(v.Loc, st, nil)), true
+			}
+			if v.Loc != nil {
+				return TV{}, false
+			}
 			return valTV(v), true
 		}
 		if base != nil {
@@ -588,9 +595,21 @@ func (fr *frame) resolveLocal(name string, at *ssa.BasicBlock) (*Val, bool) {
 					cand = x
 				}
 			case *ssa.DebugRef:
-				if id, ok := x.Expr.(interface{ String() string }); ok && !x.IsAddr {
+				if id, ok := x.Expr.(interface{ String() string }); ok {
 					if id.String() == name {
-						cand = x.X
+						if !x.IsAddr {
+							cand = x.X
+						} else if al, isAlloc := x.X.(*ssa.Alloc); isAlloc {
+							// address-taken struct local: the name denotes the object;
+							// private scalar cell: the name denotes its content
+							if pt, ok := x.X.Type().(*types.Pointer); ok {
+								if _, isSt := types.Unalias(pt.Elem()).Underlying().(*types.Struct); isSt {
+									cand = x.X
+								} else if !allocEscapes(al) {
+									cand = x.X
+								}
+							}
+						}
 					}
 				}
 			}
